@@ -152,7 +152,7 @@ MATURITY = ["bal mine:1:w mine:98 mine:1 mine:1 mine:1 tx:s:cb101.0:m100000000,m
 def gen(rng, tier):
     cases = list(FIXED)
     cases += MATURITY if tier == "quick" else MATURITY + ["bal mine:2:w mine:99 mine:1 reorg:1 mine:1"]
-    for _ in range(60 if tier == "quick" else 1500):
+    for _ in range(45 if tier == "quick" else 1500):
         cases.append(random_scenario(rng, rng.randrange(4, 12)))
     return cases
 
